@@ -427,17 +427,21 @@ example : ∀ x ∈ [5, 6, 5], (fun x : Nat => if x < 3 then some 0 else none) x
 
 /-! ## round 3b: which Python OBJECT passed as `key` takes which branch of the key dispatch -/
 
-/-- one row of the regenerated table agrees with the branch the model computes for that function and kind -/
+/-- one row of the regenerated table agrees with the branch the model computes for that function and kind.
+    Where the model says TypeError the key object is not a valid `key` for that function: the statement
+    quantifies over valid parameters, so the source may do anything there (reject it as today, or accept it in a
+    later version - `bucketize(src, key=None)` as the identity key, say) and the row is not constrained. -/
 def keyRowOk (r : String × String × String) : Bool :=
   match keyBranchOf r.1, KeyKind.ofName? r.2.1 with
-  | some br, some k => r.2.2 == (br k.facts).name
+  | some br, some k => decide (br k.facts = .typeError) || r.2.2 == (br k.facts).name
   | _, _ => false
 
 /-- SOURCE FACTS, re-established from the current `boltons/iterutils.py` on every run (the table is regenerated
     by calling the live `unique_iter` / `redundant` / `bucketize` with a sample key object of every kind on the
     items 1, 2, 3 and reading off which keys were used): every function takes, for every kind of key object, the
-    branch the model's dispatch computes - `None` is the identity key for unique / redundant and a TypeError for
-    bucketize; every kind of callable (function, partial, `__call__` instance, bound method, class, and an
+    branch the model's dispatch computes (for the kinds that are valid keys of that function; what the source
+    does with an invalid one is left open) - `None` is the identity key for unique / redundant (today a TypeError
+    for bucketize); every kind of callable (function, partial, `__call__` instance, bound method, class, and an
     instance whose truth value is False) is called; a str names an attribute; a list is per-item keys for
     bucketize only.  Every (function, kind) pair is in the table, except redundant with a falsy callable while
     that region is a known finding (C09-redundant-falsy-key; the row is back as soon as it is fixed). -/
